@@ -125,9 +125,19 @@ def extract(config="default", repo=None, use_cache=True):
     else:
         meta["cached"] = True
     facts = {}
-    for c in CRATES:
-        with open(os.path.join(cdir, c + ".json")) as fh:
-            facts[c] = json.load(fh)
+    try:
+        for c in CRATES:
+            with open(os.path.join(cdir, c + ".json")) as fh:
+                facts[c] = json.load(fh)
+    except (FileNotFoundError, ValueError):
+        if not use_cache:
+            raise
+        # a concurrent run pruned or is still writing this entry: extract afresh
+        return extract(config, repo, use_cache=False)
+    try:
+        os.utime(cdir, None)
+    except OSError:
+        pass
     return facts, meta
 
 
@@ -173,12 +183,19 @@ def extract_fixture():
         return {"poscontrol": json.load(fh)}
 
 
-def _prune_cache(keep=12):
+def _prune_cache(keep=60, min_age_s=1800):
+    """Drop cache entries beyond the `keep` newest, but never one used in the last half hour (parallel runs)."""
     try:
+        now = time.time()
         ents = [os.path.join(CACHE, d) for d in os.listdir(CACHE) if d.startswith("facts-") and ".tmp" not in d]
         ents.sort(key=lambda p: os.path.getmtime(p), reverse=True)
         for p in ents[keep:]:
-            shutil.rmtree(p, ignore_errors=True)
+            if now - os.path.getmtime(p) > min_age_s:
+                shutil.rmtree(p, ignore_errors=True)
+        for d in os.listdir(CACHE):
+            p = os.path.join(CACHE, d)
+            if (d.startswith("x-") or ".tmp" in d) and now - os.path.getmtime(p) > 3600:
+                shutil.rmtree(p, ignore_errors=True)
     except OSError:
         pass
 
